@@ -56,7 +56,7 @@ def run(replay=None):
         n = ev.get('node', {})
         if n.get('cls') == 'HplBinaryOperator' and n['operand1'].get('dt') == ['NUMBER']:
             c = copy.deepcopy(ev); c['id'] = CANARY_BASE + 1
-            c['node']['operand1']['dt'] = ['NUMBER', 'STRING']
+            c['node']['operand1']['dt'] = ['NUMBER', 'MESSAGE']
             canaries.append(c)
             break
     res = tlc.validate_batch('T_C03', events + canaries)
